@@ -18,9 +18,19 @@
    fir ; cfg <B> <nch> ; taps <L> <L*nch rats> ; x <rats, frame major, multiple of B frames>
           -> successive `Fir.step` outputs (one block)
    vbs ; cfg <B> <nch> ; taps ... ; parts <len...> ; x <rats> -> `Vbs.run` over the partition
+   runos | runtsos ; (as run / runts) -> `renderTraceOS` / `renderTraceTSOS`: the renderer with the partitioned
+          overlap-save convolver of `Model/OverlapSave.lean` inside `ObjectRenderer` (block_size 0 / empty filter:
+          ` ! os-<error>` as the constructor raises)
+   os ; cfg <B> <nch> ; taps <L> <L*nch rats> ; parts <len...> ; x <rats>
+          -> `OS.new` then `OS.filterBlock` on each part in turn (a part need not have B rows: ` ! os-shape`);
+             `<k> # b1 | b2 ...` and ` ! os-<error>` when a call raised
+   vbsos ; cfg <B> <nch> ; taps ... ; parts <len...> ; x <rats>
+          -> `VariableBlockSizeAdapter` (`Vbs.run`) around `OS.filterBlock`; ` ! os-<error>` if the constructor raises
+   circ ; cfg <N> <nch> ; a <La> <La*nch rats> ; b <rats, frame major> -> `circConv N a b` (one block)
    `bad-op` for a malformed line. -/
 import Earverif.Model.RenderSpec
 import Earverif.Model.RendererTS
+import Earverif.Model.OverlapSave
 import Earverif.Driver.Util
 open Earverif.Stream Earverif.Timeline Earverif.Renderer Earverif.Driver
 open Earverif.RendererTS
@@ -167,6 +177,11 @@ def answerRender (mode : String) (secs : List (List String)) : Option String :=
     let cfg : Cfg (Frame n) := ⟨sr, B, taps, nin⟩
     if mode = "run" then
       some (showTrace (renderTrace cfg (RState.init cfg objs dss hoas) blocks))
+    else if mode = "runos" then
+      -- ObjectRenderer.__init__: OverlapSaveConvolver(...) / VariableBlockSizeAdapter(...) raise
+      if B = 0 then some (showTrace (n := n) ([], none) ++ " ! os-blockSizeZero")
+      else if taps.isEmpty then some (showTrace (n := n) ([], none) ++ " ! os-emptyFilter")
+      else some (showTrace (renderTraceOS cfg (RStateOS.init cfg objs dss hoas) blocks))
     else
       some (showFrames (Earverif.RenderSpec.out cfg objs dss hoas frames))
   | _ => none
@@ -298,6 +313,13 @@ def answerRenderTS (mode : String) (secs : List (List String)) : Option String :
       match RStateTS.init cfg objs dss hoas with
       | .error e => some (showTraceTS (n := n) ([], some (.track e)))
       | .ok st0 => some (showTraceTS (renderTraceTS cfg st0 blocks))
+    else if mode = "runtsos" then
+      if B = 0 then some (showTraceTS (n := n) ([], none) ++ " ! os-blockSizeZero")
+      else if taps.isEmpty then some (showTraceTS (n := n) ([], none) ++ " ! os-emptyFilter")
+      else
+        match RStateTSOS.init cfg objs dss hoas with
+        | .error e => some (showTraceTS (n := n) ([], some (.track e)))
+        | .ok st0 => some (showTraceTS (renderTraceTSOS cfg st0 blocks))
     else
       some (showFrames (outTS cfg objs dss hoas frames))
   | _ => none
@@ -331,6 +353,69 @@ def answerVbs (secs : List (List String)) : Option String :=
     some (s!"{os.length} # " ++ String.intercalate " | " (os.map showFrames))
   | _ => none
 
+def showOSErr : OSErr → String
+  | .blockSizeZero => "os-blockSizeZero"
+  | .emptyFilter => "os-emptyFilter"
+  | .shape => "os-shape"
+
+/-- successive `filter_block` calls, keeping the outputs produced before an exception -/
+def osTrace {n : Nat} : OS (Frame n) → List (List (Frame n)) → List (List (Frame n)) × Option OSErr
+  | _, [] => ([], none)
+  | s, b :: bs =>
+    match s.filterBlock b with
+    | .error e => ([], some e)
+    | .ok (s', o) => let (os, e) := osTrace s' bs; (o :: os, e)
+
+def showOSTrace {n : Nat} (r : List (List (Frame n)) × Option OSErr) : String :=
+  s!"{r.1.length} # " ++ String.intercalate " | " (r.1.map showFrames) ++
+    (match r.2 with | some e => " ! " ++ showOSErr e | none => "")
+
+def answerOS (secs : List (List String)) : Option String :=
+  match secs with
+  | [["cfg", b, nch], "taps" :: _ :: taps, "parts" :: parts, "x" :: xs] => do
+    let B ← b.toNat?
+    let n ← nch.toNat?
+    let taps ← vecs? n (← taps.mapM parseRat?)
+    let frames ← vecs? n (← xs.mapM parseRat?)
+    let parts ← parts.mapM String.toNat?
+    let blocks ← splitBy? parts frames
+    match OS.new B taps with
+    | .error e => some (showOSTrace (n := n) ([], some e))
+    | .ok s => some (showOSTrace (osTrace s blocks))
+  | _ => none
+
+def answerVbsOS (secs : List (List String)) : Option String :=
+  match secs with
+  | [["cfg", b, nch], "taps" :: _ :: taps, "parts" :: parts, "x" :: xs] => do
+    let B ← b.toNat?
+    let n ← nch.toNat?
+    let taps ← vecs? n (← taps.mapM parseRat?)
+    let frames ← vecs? n (← xs.mapM parseRat?)
+    let parts ← parts.mapM String.toNat?
+    let blocks ← splitBy? parts frames
+    match OS.new B taps with
+    | .error e => some (showOSTrace (n := n) ([], some e))
+    | .ok s =>
+      -- VariableBlockSizeAdapter.__init__: process_func(zeros) raises for an empty filter
+      match s.filterBlock (List.replicate B (0 : Frame n)) with
+      | .error e => some (showOSTrace (n := n) ([], some e))
+      | .ok _ =>
+        let st := Vbs.init OS.step B (0 : Frame n) s
+        let (os, _) := Vbs.run OS.step B 0 st blocks
+        some (s!"{os.length} # " ++ String.intercalate " | " (os.map showFrames))
+  | _ => none
+
+def answerCirc (secs : List (List String)) : Option String :=
+  match secs with
+  | [["cfg", nn, nch], "a" :: _ :: as, "b" :: bs] => do
+    let N ← nn.toNat?
+    let n ← nch.toNat?
+    let a ← vecs? n (← as.mapM parseRat?)
+    let b ← vecs? n (← bs.mapM parseRat?)
+    if b.length ≠ N then none
+    some ("1 # " ++ showFrames (circConv N a b))
+  | _ => none
+
 def answer (line : String) : String :=
   let secs := (line.splitOn ";").map words
   let r := match secs with
@@ -338,6 +423,11 @@ def answer (line : String) : String :=
     | ["spec"] :: rest => answerRender "spec" rest
     | ["runts"] :: rest => answerRenderTS "runts" rest
     | ["spects"] :: rest => answerRenderTS "spects" rest
+    | ["runos"] :: rest => answerRender "runos" rest
+    | ["runtsos"] :: rest => answerRenderTS "runtsos" rest
+    | ["os"] :: rest => answerOS rest
+    | ["vbsos"] :: rest => answerVbsOS rest
+    | ["circ"] :: rest => answerCirc rest
     | ["fir"] :: rest => answerFir rest
     | ["vbs"] :: rest => answerVbs rest
     | _ => none
